@@ -1122,6 +1122,7 @@ func (p *pipe) Do(ctx context.Context, cmd Completed) (resp RedisResult) {
 		}
 	}
 	waits := p.incrWaits() // if this is 1, and the background worker is not started, no need to queue
+	verifYieldAfterIncrWaits(waits)
 	state := atomic.LoadInt32(&p.state)
 
 	if state == 1 {
@@ -1230,6 +1231,7 @@ func (p *pipe) DoMulti(ctx context.Context, multi ...Completed) *redisresults {
 	}
 
 	waits := p.incrWaits() // if this is 1, and the background worker is not started, no need to queue
+	verifYieldAfterIncrWaits(waits)
 	state := atomic.LoadInt32(&p.state)
 
 	if state == 1 {
